@@ -40,9 +40,12 @@ def gen_torrent(rng, tag, tier, version=None, allow_dup_names=True):
         if all(len(b) == 0 for _, b in files):
             files[0] = (files[0][0], Blob.rand(5, pl + 1))
     name = ("t" + tag) if not single else files[0][0]
-    return {"name": name, "files": [(p, b.token()) for p, b in files], "pl": pl,
-            "version": version, "single": single,
-            "source": rng.choice(["own", "own", "ref"])}
+    t = {"name": name, "files": [(p, b.token()) for p, b in files], "pl": pl,
+         "version": version, "single": single,
+         "source": rng.choice(["own", "own", "ref"])}
+    if version == 1 and t["source"] == "own" and not single and rng.random() < 0.3:
+        t["create_opts"] = {"align": True}      # v1 with BEP 47 padding entries
+    return t
 
 
 def torrent_files(t):
